@@ -37,14 +37,14 @@ PROPS = {
                 outside=["rendering of numbers (std::fmt)", "stave-level multi-line messages", "E100/E101 positions"]),
     "C08": dict(decided="RdhCru::from_buf(b).to_byte_slice() == b for all 2^512 headers; the scanner step delivers exactly the matching packets' bytes in order (C03, load mode); layer/stave, FEE and link match predicates for all values",
                 outside=["BufferedWriter::push_cdp_arr/flush (best-effort harnesses exhaust 16 GB)", "files, stdout, the 1 MiB threshold, the writer thread", "union over all filter values", "stdin reader"]),
-    "C09": dict(decided="ItsPayloadFsmContinuous::advance from new() over all sequences of <= 8 words is bisimilar to the documented diagram (12 implementation states, every edge covered); one step from every reachable state; reset_fsm; an identifier illegal in a state is reported ([E30]/[E40] in single-successor states, [E99x] + fallback sanity error in choice states) at the word",
-                outside=["sequences longer than 8 words in one query (covered inductively by the one-step harness)"]),
+    "C09": dict(decided="ItsPayloadFsmContinuous::advance from new() over all sequences of <= 12 words (thorough: 20) is bisimilar to the documented diagram (12 implementation states, every edge covered); one step from every reachable state; reset_fsm; an identifier illegal in a state is reported ([E30]/[E40] in single-successor states, [E99x] + fallback sanity error in choice states) at the word",
+                outside=["sequences longer than 12 (thorough: 20) words in one query (covered inductively by the one-step harness)"]),
     "C10": dict(decided="RdhCruSanityValidator verdict == documented rules for all 2^512 headers (default, ITS-specialised, configured version; Header ID relative to the first header seen); RdhCruRunningChecker verdict == documented automaton over all 3-header histories from an HBF start and one step from an arbitrary checker state; LinkValidator::do_rdh_checks on an arbitrary first header: number of errors, [E10], every error at the RDH offset",
                 outside=["the context rows of the RDH messages (previous RDHs, header text)", "RDH error offsets beyond the first header of a link", "page-counter overflow after 65535 pages without stop"]),
     "C11": dict(decided="every one of the 2^80 values of an IHW/TDH/TDT/DDW0: sanity verdict == documented rule (ID, reserved masks, TDH trigger rule, DDW0 index); data word: ID range verdict for all ids; lane-active verdict for all ids x all lane masks; OB input <= 6 and lane = 7*connector+input",
                 outside=["the error text", "the three OB ids 0x47/0x4F/0x57 whose lane shift overflows in the dev profile (noted under C04)"]),
-    "C12": dict(decided="preprocess_payload on every payload of length 0..=40 (arbitrary contents, release semantics): Err iff trailing 0xFF run > 15; otherwise exactly the documented number of 16-byte or 10-byte chunks, chunk i being the slice at i*slot; on well-formed payloads the code's own debug assertions hold; over-long padding: one report at the RDH, no word examined, state reset",
-                outside=["payloads > 40 (thorough: 64) bytes", "the view path"]),
+    "C12": dict(decided="preprocess_payload on every payload of length 0..=64 (arbitrary contents, release semantics): Err iff trailing 0xFF run > 15; otherwise exactly the documented number of 16-byte or 10-byte chunks, chunk i being the slice at i*slot; on well-formed payloads the code's own debug assertions hold; over-long padding: one report at the RDH, no word examined, state reset",
+                outside=["payloads > 64 (thorough: 100) bytes", "the view path"]),
     "C13": dict(decided="AlpideWord::from_byte == reference classification for all 256 bytes; LaneAlpideFrameAnalyzer::decode: one step from an arbitrary decoder state on any legal byte == reference ALPIDE transition (chip list, BC, fatal flag, readout-flag counters) -- the reference never looks at hit bytes; ReadoutFlags::log for all trailers; lane count / inner grouping verdicts",
                 outside=["bunch-counter comparisons across chips and lanes (itertools::unique -> HashMap/SipHash/getrandom)", "frames spread over packets", "process_frame's message text"]),
     "C14": dict(decided="collector side: counters are the sums of the messages, err_count == number of Error messages, per-bit trigger counters, sorted links, de-duplicated FEE ids; scanner side (one step, statistics channel on): RDHSeen/RDHFiltered/PayloadSize/links/FEE ids/first-RDH values equal the ground truth of the visited packets",
